@@ -346,3 +346,47 @@ func VerifH_C02_streams() {
 	vAssert(da && db && ea == nil && eb == nil, "C02.streams.both-answered")
 	vCover("C02.streams.small-chunks", chunk == 3 && da)
 }
+
+// A request is given up by its caller (Conn.Cancel, or its response timer
+// fires) while the server's answer to it is already on the way. That answer's
+// header block - whole, or cut at any byte into HEADERS + CONTINUATION -
+// inserts an entry into the HPACK dynamic table, as any block may. The answer
+// to the other request in flight refers to that entry by index, as a
+// conforming server's encoder will: its caller gets exactly that response.
+//
+//verif:harness prop=C02,C09 unwind=300 timeout=600
+func VerifH_C02_cancel() {
+	cl := vStartClient()
+	a := cl.request("GET", "/a", nil)
+	b := cl.request("GET", "/b", nil)
+	cl.sent()
+	if vBool() {
+		_ = cl.c.Cancel(a.ctx)
+	} else {
+		a.ctx.fireTimeout()
+	}
+	vSettle()
+	blk := []byte{0x88, 0x40, 0x03, 'x', '-', 't', 0x01, 'A'}
+	cut := vRange(0, len(blk))
+	if cut == len(blk) {
+		cl.feed(vFrame(0x1, 0x4, 1, blk))
+	} else {
+		cl.feed(vFrame(0x1, 0x0, 1, blk[:cut]))
+		cl.feed(vFrame(0x9, 0x4, 1, blk[cut:]))
+	}
+	cl.feed(vFrame(0x0, 0x1, 1, []byte("late")))
+	cl.feed(vFrame(0x1, 0x5, 3, []byte{0x8d, 0xbe}))
+	db, eb := b.outcome()
+	vNote(fmt.Sprintf("cut=%d b done=%v err=%v", cut, db, eb))
+	vAssert(db && eb == nil, "C02.cancel.other-request-answered")
+	if db && eb == nil {
+		vAssert(b.res.StatusCode() == 404, "C02.cancel.own-status")
+		vAssert(string(b.res.Header.Peek("x-t")) == "A", "C02.cancel.field-from-the-shared-table")
+	}
+	rst := false
+	for _, f := range cl.sent() {
+		rst = rst || (f.typ == 0x3 && f.stream == 1)
+	}
+	vAssert(rst, "C02.cancel.server-is-told")
+	vCover("C02.cancel.cut", cut == 4 && db)
+}
